@@ -5,7 +5,7 @@
            203-249 (_continue_on_generator: send / throw with the stored traceback 219-223),
            257-283 (_accept_error), asynq/futures.py 54-65,150-152 (value / raise_if_error),
            qcore/errors.py prepare_for_reraise / reraise, asynq/decorators.py AsyncDecorator.__call__
-   Part C  creator chain of AsyncTask.traceback() async_task.py 78, 309-321; debug.py 219-234
+   Part C  creator chain of AsyncTask.traceback() async_task.py 78, 309-344; debug.py 219-234
    Part D  __str__/__repr__/dump of every kind    futures.py 162-183; async_task.py 340-377;
            batching.py 166-185; scheduler.py 254-277; generator.py 86-87,173-177;
            scoped_value.py 52-56,72-76,93-97
@@ -255,65 +255,108 @@ Definition caller_sees (ms : list (mode * how)) (b : bottom) : option (list fram
   end.
 
 (* ------------------------------------------------------------------------------------------ *)
-(** * Part C — creator chain (async_task.py 78, 309-321)                                       *)
+(** * Part C — creator chain (async_task.py 78, 309-344; debug.py 219-234)                     *)
 
 Inductive tname := TL (i : Z) | TH (i : Z).     (* level task | helper task that created level i *)
-Inductive task := Task (name : tname) (creator : option task).
 
-Definition tk_name (t : task) := match t with Task n _ => n end.
-Definition tk_creator (t : task) := match t with Task _ c => c end.
+(* Can inspect.getframeinfo find the source line of the task's frame?  SrcNone: the function was
+   built by exec/compile under a pseudo file name, typed into a REPL / python -c, or its file is
+   missing or empty; frame_info.code_context is then None (async_task.py 332, 340). *)
+Inductive src := SrcFile | SrcNone.
 
-(* The code as it exists (async_task.py 309-321): recursive.  One Python stack frame per
-   creator: with a stack budget the call fails (RecursionError) on long chains. *)
-Fixpoint traceback_rec (t : task) : list tname :=
-  match t with
-  | Task n None => [n]
-  | Task n (Some c) => traceback_rec c ++ [n]
+(* which frame _traceback_line finds (async_task.py 326-329):
+   FrLive   the generator is still open: debug.get_frame(self._generator)
+   FrSaved  the task failed: _continue_on_generator kept the frame in self._frame (219, 238-243)
+   FrGone   the task returned: _generator is None and _frame was never set *)
+Inductive fstate := FrLive | FrSaved | FrGone.
+
+Inductive task := Task (name : tname) (s : src) (f : fstate) (creator : option task).
+
+Definition tk_name (t : task) := match t with Task n _ _ _ => n end.
+Definition tk_src (t : task) := match t with Task _ s _ _ => s end.
+Definition tk_frame (t : task) := match t with Task _ _ f _ => f end.
+Definition tk_creator (t : task) := match t with Task _ _ _ c => c end.
+
+(* one entry of format_asynq_stack(): 'File "..", line .., in <function>\n    <code line>', or the
+   str(task) text '@asynq <function>(args) (status, step)' *)
+Inductive entry := EFrame (n : tname) | EStr (n : tname).
+Definition entry_name (e : entry) : tname := match e with EFrame n | EStr n => n end.
+
+(* AsyncTask._traceback_line (async_task.py 325-344).  None = it raises: with a frame but no
+   source, "\n".join(frame_info.code_context) is "\n".join(None), a TypeError. *)
+Definition traceback_line (t : task) : option entry :=
+  match tk_frame t with
+  | FrGone => Some (EStr (tk_name t))                         (* else: return str(self)   343-344 *)
+  | FrLive | FrSaved =>
+    match tk_src t with
+    | SrcFile => Some (EFrame (tk_name t))                    (* the "File ..." template  333-341 *)
+    | SrcNone => None
+    end
   end.
 
-Fixpoint traceback_rec_budget (budget : nat) (t : task) : option (list tname) :=
+(* async_task.py 314-320: try: task._traceback_line() / except Exception: safe_str(task).  The
+   handler is per task (inside the loop): a task whose line cannot be produced costs only the
+   form of its own entry. *)
+Definition entry_of (t : task) : entry :=
+  match traceback_line t with Some e => e | None => EStr (tk_name t) end.
+
+(* The code as first found: recursive, same per-task handler.  One Python stack frame per
+   creator: with a stack budget the call fails (RecursionError) on long chains. *)
+Fixpoint traceback_rec (t : task) : list entry :=
+  match t with
+  | Task _ _ _ None => [entry_of t]
+  | Task _ _ _ (Some c) => traceback_rec c ++ [entry_of t]
+  end.
+
+Fixpoint traceback_rec_budget (budget : nat) (t : task) : option (list entry) :=
   match budget with
   | O => None                                           (* RecursionError *)
   | S b =>
     match t with
-    | Task n None => Some [n]
-    | Task n (Some c) =>
-      match traceback_rec_budget b c with Some l => Some (l ++ [n]) | None => None end
+    | Task _ _ _ None => Some [entry_of t]
+    | Task _ _ _ (Some c) =>
+      match traceback_rec_budget b c with Some l => Some (l ++ [entry_of t]) | None => None end
     end
   end.
 
-(* The repaired code (work/fixes/C18-traceback-iterative.diff): walk the creators in a loop,
-   then reverse. *)
-Fixpoint walk (t : task) : list tname :=
+(* The code as it is now (async_task.py 309-323, work/fixes/C18-traceback-iterative.diff): walk
+   the creators in a loop, one try/except per task, then reverse. *)
+Fixpoint walk (t : task) : list entry :=
   match t with
-  | Task n None => [n]
-  | Task n (Some c) => n :: walk c
+  | Task _ _ _ None => [entry_of t]
+  | Task _ _ _ (Some c) => entry_of t :: walk c
   end.
-Definition traceback (t : task) : list tname := rev (walk t).
+Definition traceback (t : task) : list entry := rev (walk t).
 
 Inductive created :=
 | ByParent     (* the previous level calls child.asynq() and yields it                      *)
 | BySync       (* the previous level calls child() synchronously                             *)
 | Pre          (* created outside any task (creator None), only awaited by the previous level *)
-| ByHelper.    (* created by a helper task of the previous level that has already finished    *)
+| ByHelper     (* created by a helper task of the previous level that has already returned   *)
+| ByFailedHelper (hs : src).
+               (* created by a helper task of the previous level that then raised: the helper
+                  keeps its frame in _frame; hs = can that frame's source line be found       *)
 
-(* the task at level i+1, given the task at level i *)
-Definition next_task (i : Z) (parent : task) (c : created) : task :=
+(* the task at level i+1 (source kind s), given the task at level i; every task on the chain
+   except finished helpers is suspended or running, so its generator frame is live *)
+Definition next_task (i : Z) (parent : task) (c : created) (s : src) : task :=
   match c with
-  | ByParent | BySync => Task (TL (i + 1)) (Some parent)
-  | Pre => Task (TL (i + 1)) None
-  | ByHelper => Task (TL (i + 1)) (Some (Task (TH (i + 1)) (Some parent)))
+  | ByParent | BySync => Task (TL (i + 1)) s FrLive (Some parent)
+  | Pre => Task (TL (i + 1)) s FrLive None
+  | ByHelper => Task (TL (i + 1)) s FrLive (Some (Task (TH (i + 1)) SrcFile FrGone (Some parent)))
+  | ByFailedHelper hs => Task (TL (i + 1)) s FrLive (Some (Task (TH (i + 1)) hs FrSaved (Some parent)))
   end.
 
-Fixpoint deepest (i : Z) (t : task) (cs : list created) : task :=
+Fixpoint deepest (i : Z) (t : task) (cs : list (created * src)) : task :=
   match cs with
   | [] => t
-  | c :: cs' => deepest (i + 1) (next_task i t c) cs'
+  | (c, s) :: cs' => deepest (i + 1) (next_task i t c s) cs'
   end.
 
-(* format_asynq_stack() (debug.py 219-234) called in the body of the deepest task *)
-Definition stack_in_deepest (cs : list created) : list tname :=
-  traceback (deepest 0 (Task (TL 0) None) cs).
+(* format_asynq_stack() (debug.py 219-234) called in the body of the deepest task; s0 = source
+   kind of the outermost task, cs = how each further level was created and its source kind *)
+Definition stack_in_deepest (s0 : src) (cs : list (created * src)) : list entry :=
+  traceback (deepest 0 (Task (TL 0) s0 FrLive None) cs).
 
 (* ------------------------------------------------------------------------------------------ *)
 (** * Part D — __str__ / __repr__ / dump                                                       *)
@@ -533,20 +576,20 @@ Definition of_option {A} (x : option A) : res A := match x with Some a => Return
 Inductive case :=
 | CFilter (lines : list string)
 | CChain (ms : list (mode * how)) (b : bottom)
-| CStack (cs : list created)
+| CStack (s0 : src) (cs : list (created * src))
 | CRepr (o : obj).
 
 Inductive result :=
 | RFilter (out : list string)
 | RChain (frames : option (list frame))
-| RStack (names : list tname)
+| RStack (entries : list entry)
 | RRepr (s r : res summary) (d : res (list (Z * dline))).
 
 Definition run_case (c : case) : result :=
   match c with
   | CFilter ls => RFilter (filter_traceback ls)
   | CChain ms b => RChain (option_map user_frames (caller_sees ms b))
-  | CStack cs => RStack (stack_in_deepest cs)
+  | CStack s0 cs => RStack (stack_in_deepest s0 cs)
   | CRepr o => RRepr (of_option (str_obj o)) (of_option (repr_obj o))
                      (if has_dump (cls_of o) then Returned (dump_obj o 0) else NoMethod)
   end.
